@@ -14,7 +14,7 @@ func init() {
 }
 
 func ruleU4(p *Prog) *RuleResult {
-	res := newResult("U4", ruleDoc["U4"], 3)
+	res := newResult("U4", ruleDoc["U4"], 1)
 	fns := append([]*ssa.Function(nil), p.sourceFns()...)
 	sort.Slice(fns, func(i, j int) bool { return fname(fns[i]) < fname(fns[j]) })
 	for _, f := range fns {
